@@ -179,6 +179,20 @@ def setOfClauses : List (Expr × Option Str) → List SetVal → List SetVal
     | .int v => setOfClauses rest (setInsert (.num ⟨decide (v < 0), v.natAbs, 0⟩) acc)
     | _ => setOfClauses rest acc
 
+/-- one COLUMN_CLAUSE; `col` is the result of parsing a COLUMN at this position. -/
+def yClauseOne (col : Option (Expr × List Tok)) (toks : List Tok) :
+    Option ((Expr × Option Str) × List Tok) :=
+  match toks with
+  | .sym .mul :: .sym .dcolon :: .kw .TAG :: r => some ((.wildcard .tag, none), r)
+  | .sym .mul :: .sym .dcolon :: .kw .FIELD :: r => some ((.wildcard .field, none), r)
+  | .sym .mul :: r => some ((.wildcard .none, none), r)
+  | _ =>
+    match col with
+    | some (e, .kw .AS :: .ident a :: r) => some ((e, some a), r)
+    | some (e, .kw .AS :: .str a :: r) => some ((e, some a), r)
+    | some (e, r) => some ((e, none), r)
+    | none => none
+
 mutual
 /-- COLUMN without a trailing binary operator. -/
 def yPrimary : Nat → List Tok → Option (Expr × List Tok)
@@ -258,18 +272,7 @@ def yColLoop : Nat → Nat → Expr → List Tok → Option (Expr × List Tok)
 def yClauses : Nat → List Tok → Option (List (Expr × Option Str) × List Tok)
   | 0, _ => none
   | f + 1, toks =>
-    let one : Option ((Expr × Option Str) × List Tok) :=
-      match toks with
-      | .sym .mul :: .sym .dcolon :: .kw .TAG :: r => some ((.wildcard .tag, none), r)
-      | .sym .mul :: .sym .dcolon :: .kw .FIELD :: r => some ((.wildcard .field, none), r)
-      | .sym .mul :: r => some ((.wildcard .none, none), r)
-      | _ =>
-        match yCol f 0 toks with
-        | some (e, .kw .AS :: .ident a :: r) => some ((e, some a), r)
-        | some (e, .kw .AS :: .str a :: r) => some ((e, some a), r)
-        | some (e, r) => some ((e, none), r)
-        | none => none
-    match one with
+    match yClauseOne (yCol f 0 toks) toks with
     | some (c, .sym .comma :: r) =>
       match yClauses f r with
       | some (cs, r') => some (c :: cs, r')
@@ -280,6 +283,27 @@ end
 
 def mkSet (name : Str) (op : Op) (cl : List (Expr × Option Str)) : Expr :=
   .binary op (.varRef name .unknown) (.set (setOfClauses cl []))
+
+/-- AND / OR. -/
+def logicalOpOfTok : Tok → Option Op
+  | .kw .AND => some .and
+  | .kw .OR => some .or
+  | _ => none
+
+def Expr.isRegexLit : Expr → Bool
+  | .regex _ => true
+  | _ => false
+
+/-- `MATCH(a, b)`, `MATCHPHRASE(a, b)`, `IPINRANGE(a, b)` with STRING_TYPE operands. -/
+def matchFamily (k : Kw) (a b : Tok) : Option Expr :=
+  let op? : Option Op := match k with
+    | .MATCH => some .matchOp
+    | .MATCHPHRASE => some .matchphrase
+    | .IPINRANGE => some .ipinrange
+    | _ => none
+  match op?, isStringType a, isStringType b with
+  | some op, some x, some y => some (.binary op (.varRef x .unknown) (.str y))
+  | _, _, _ => none
 
 mutual
 /-- what may stand on either side of a comparison, or be a CONDITION on its own. -/
@@ -305,14 +329,9 @@ def yOperand : Nat → List Tok → Option (Expr × CKind × List Tok)
       | some (cl, .sym .rparen :: r) => some (mkSet name .notin cl, .cond, r)
       | _ => none
     | .kw k :: .sym .lparen :: a :: .sym .comma :: b :: .sym .rparen :: rest =>
-      let op? : Option Op := match k with
-        | .MATCH => some .matchOp
-        | .MATCHPHRASE => some .matchphrase
-        | .IPINRANGE => some .ipinrange
-        | _ => none
-      match op?, isStringType a, isStringType b with
-      | some op, some x, some y => some (.binary op (.varRef x .unknown) (.str y), .cond, rest)
-      | _, _, _ => none
+      match matchFamily k a b with
+      | some e => some (e, .cond, rest)
+      | none => none
     | _ =>
       match yCol f 0 toks with
       | some (e, r) => some (e, .col, r)
@@ -331,7 +350,7 @@ def yCondUnit : Nat → List Tok → Option (Expr × CKind × List Tok)
           match yOperand f rest with
           | some (e2, k2, r) =>
             if k2 = .cond then none
-            else if op = .neqregex && !(match e2 with | .regex _ => true | _ => false) then none
+            else if op = .neqregex && !e2.isRegexLit then none
             else some (.binary op e1 e2, .cond, r)
           | none => none
       | none => some (e1, k1, t :: rest)
@@ -358,11 +377,7 @@ def yCondLoop : Nat → Nat → Expr → List Tok → Option (Expr × List Tok)
   | f + 1, minL, lhs, toks =>
     match toks with
     | t :: rest =>
-      let op? : Option Op := match t with
-        | .kw .AND => some .and
-        | .kw .OR => some .or
-        | _ => none
-      match op? with
+      match logicalOpOfTok t with
       | some op =>
         if yaccLevel op = 0 then none
         else if yaccLevel op ≥ minL then
